@@ -22,6 +22,9 @@ EXPLANATION = ('PAIR-INTEGRITY: in TreeKem::encap the secret key stored at secre
 ASSUMPTIONS = ['to_hpke_key_pair is a deterministic key derivation: .0 is the private key of .1']
 
 PAIR_RX = r'PathSecret::to_hpke_key_pair\((.*)\)\.0\}$'
+# the slot of a path key is the enumerate() counter of the iteration over the whole (unfiltered) direct path / update path, plus one
+INDEX_RX = (r'^\(Iterator::next\((Iterator::skip\()?Iterator::enumerate\((Iterator::zip\()?(NodeVec::direct_copath\(|update_path\.nodes)'
+            r'.*\)\.0 AddWithOverflow const 1\)\.0$')
 
 
 def generator_condition(fq):
@@ -97,8 +100,8 @@ def run(ctx):
             if not ok_pair:
                 r.bad('pair-split', 'the public key installed in the tree (%s) does not come from the same key-pair derivation as the stored private key'
                       % [pk[-60:] for _, pk, _ in un], where=[w[4]])
-            if not re.search(r'AddWithOverflow const 1\)\.0$', w[2]):
-                r.bad('index', 'the path key is stored at index `%s`, expected i + 1' % w[2][-60:], where=[w[4]])
+            if not re.search(INDEX_RX, w[2]):
+                r.bad('index', 'the path key is stored at index `%s`, expected (position in the UNFILTERED direct path) + 1' % w[2][-90:], where=[w[4]])
         # the Some-write and update_node sit on the not-filtered side, the None-write on the filtered side
         gx = GuardExtractor(body)
         ok = False
@@ -156,8 +159,8 @@ def run(ctx):
                 if not ok:
                     r.bad('unverified-key', 'in `%s` a derived private key is stored without the matching public key having been compared with the tree '
                           '(guards: %s)' % (fq, [g.text()[-160:] for g in gs]), where=[w[4]])
-                if not re.search(r'AddWithOverflow const 1\)\.0$', w[2]):
-                    r.bad('index', 'the path key is stored at index `%s`, expected i + 1' % w[2][-60:], where=[w[4]])
+                if not re.search(INDEX_RX, w[2]):
+                    r.bad('index', 'the path key is stored at index `%s`, expected (position in the UNFILTERED direct path) + 1' % w[2][-90:], where=[w[4]])
             return r
         return f
     ctx.check('PAIR-INTEGRITY', 'decap: key stored only after the public-key match', guarded_store('TreeKem::decap', r'public_key'), floor=1)
